@@ -33,6 +33,7 @@ def bounds(tier):
             "boundaries": "triangle/trapezoid switch area (ramppts*dt*gmax) and +-1 ulp; areas where ceil() arguments are integers, +-1 ulp; min_trap_grad: area = dgdt*dt^2/2 * {1/2, 1, 2}",
             "max samples": 2e5 if tier == "quick" else 2e6,
             "ramp lengths": "every ramp length 1..%d in both regimes (2 flat-top lengths), 2 (dgdt, dt) pairs" % (3000 if tier == "thorough" else 420),
+            "pins": "dz_pins: tb {4,8} x slice separation {0.5,2,5} x thickness {0.2,0.5} x g_max {0.25,0.5,2,4} x slew {5e3,1.8e4} x dt {4e-6,1e-5}",
             "stspk": "1-5 spokes x 4 hardware settings x 4 (tbw, slice thickness) on an 8x8 mask with 2 coils",
             "spokes": "ordered location sets of 1-3 distinct points from {0,+-5,+-20}^2 and from {0,+-1,+-2.5}^2 (quick: 1-2 points + a thinned set of triples), 3 hardware settings"}
 
@@ -99,6 +100,10 @@ def gen_cases(tier, seed):
         for hw in ((2.0, 18000.0, 4e-6), (4.0, 15000.0, 4e-6), (1.0, 5000.0, 1e-5), (4.0, 2000.0, 4e-6)):
             for tbw, sl in ((4, 5.0), (4, 3.0), (2, 5.0), (8, 10.0)):
                 cases.append(dict(kind="stspk", n_spokes=ns, gmax=hw[0], dgdt=hw[1], dt=hw[2], tbw=tbw, sl_thick=sl))
+    # a further assembler built on trap_grad: the PINS multiband designer concatenates trap_grad blips into its gz waveform
+    for tb, sep, thick, gmax, slew, dt in itertools.product((4, 8), (0.5, 2.0, 5.0), (0.2, 0.5), (0.25, 0.5, 2.0, 4.0), (5000.0, 18000.0), (4e-6, 1e-5)):
+        if thick < sep:
+            cases.append(dict(kind="pins", tb=tb, sl_sep=sep, sl_thick=thick, gmax=gmax, dgdt=slew, dt=dt))
     cases.append(dict(kind="meta", skipped=skipped))
     return cases
 
@@ -152,6 +157,8 @@ def run_case(case, seed):
         return run_spokes(case, viol)
     if case["kind"] == "stspk":
         return run_stspk(case, viol)
+    if case["kind"] == "pins":
+        return run_pins(case, viol)
     area, gmax, dgdt, dt = case["area"], case["gmax"], case["dgdt"], case["dt"]
     r = int(np.ceil(gmax / dgdt / dt))
     regime = "triangle" if r * dt * gmax > area else "trapezoid"
@@ -275,3 +282,33 @@ def run_stspk(case, viol):
         if ref.shape != g.shape or not np.array_equal(ref, g):
             V("assembled-gradient", "one spoke at DC: the returned gradient %s is not spokes_grad([[0, 0]]) %s" % (g.shape, ref.shape))
     return dict(states=1, transitions=1, nontrivial=True, outcome=("stspk/odd" if g.shape[1] % 2 else "stspk/even") if not viol else "violation:" + viol[0]["oracle"], viol=viol)
+
+
+def run_pins(case, viol):
+    """multiband.dz_pins returns (rf, g): g alternates zero stretches (RF on) with trap_grad blips; it must respect the
+    amplitude and slew limits it was given (zero-extended at both ends) and have one sample per RF sample."""
+    import sigpy.mri.rf as rfm
+    gmax, dgdt, dt = case["gmax"], case["dgdt"], case["dt"]
+    rf_, g = rfm.multiband.dz_pins(case["tb"], case["sl_sep"], case["sl_thick"], gmax, dgdt, dt)
+    g = np.asarray(g, dtype=float).ravel()
+    rf_ = np.asarray(rf_).ravel()
+    # is the blip a triangle or a trapezoid?  (regime label only)
+    area = 1.0 / (case["sl_sep"] * 4258)
+    r = int(np.ceil(gmax / dgdt / dt))
+    when = "triangle blips" if r * dt * gmax > area else "trapezoid blips"
+
+    def V(oracle, detail):
+        viol.append(dict(oracle=oracle, key=dict(site="mri.rf.multiband.dz_pins", when=when), detail=detail + " | " + str(case)))
+    tol = 1e-9
+    if rf_.size != g.size:
+        V("waveform-shape", "RF has %d samples, gradient %d" % (rf_.size, g.size))
+    if not np.all(np.isfinite(g)):
+        V("finite", "gradient has non-finite samples")
+    else:
+        mx = float(np.abs(g).max())
+        if not mx <= gmax * (1 + tol):
+            V("amplitude", "max |g| = %.9g > g_max %.9g" % (mx, gmax))
+        sl_ = float(np.abs(np.diff(np.concatenate(([0.0], g, [0.0])))).max() / dt)
+        if not sl_ <= dgdt * (1 + tol):
+            V("slew", "max |dg/dt| = %.9g > %.9g (incl. end points)" % (sl_, dgdt))
+    return dict(states=1, transitions=1, nontrivial=bool(np.abs(g).max() > 0), outcome=("pins/" + when) if not viol else "violation:" + viol[0]["oracle"], viol=viol)
